@@ -550,6 +550,10 @@ func (g *Gen) calleeEnv(ctr *Contract, ce callee, c *ssa.CallCommon, args []TV, 
 			ptypes = append(ptypes, ps.At(i).Type())
 		}
 	}
+	var calleeAlias map[string]string
+	if ce.fn != nil && g.aliasFn != nil && inRepoFn(ce.fn) {
+		calleeAlias = g.aliasFn(ce.fn)
+	}
 	for i, a := range args {
 		if i < len(names) {
 			tv := a
@@ -557,6 +561,14 @@ func (g *Gen) calleeEnv(ctr *Contract, ce callee, c *ssa.CallCommon, args []TV, 
 				tv.Type = ptypes[i]
 			}
 			vars[names[i]] = tv
+			// the callee's contract may still use the name this parameter had when it was written
+			for o, n := range calleeAlias {
+				if n == names[i] {
+					if _, taken := vars[o]; !taken {
+						vars[o] = tv
+					}
+				}
+			}
 		}
 	}
 	if len(names) < len(args) && len(hdr) > 0 {
@@ -1111,8 +1123,17 @@ func (g *Gen) nativeModel(ce callee, c *ssa.CallCommon, results []TV) bool {
 					if !isStructT(elem) && !isArrayT(elem) {
 						h := g.cellHeap(elem)
 						nv := g.fresh("as.target", sortOf(elem))
+						before := "(select " + g.heap(h) + " " + g.v(mi.X) + ")"
 						g.assignHeap(h, "(store "+g.heap(h)+" "+g.v(mi.X)+" "+nv+")")
 						if sortOf(elem) == SInt && len(results) == 1 {
+							// the two exact cases: a nil error matches nothing and leaves the target alone;
+							// an error whose dynamic type is the target's type is the first match of the chain
+							// (errors.As tests assignability before it asks an As method or unwraps)
+							errv := g.v(c.Args[0])
+							g.guard(implies(eq(errv, "0"), and(not(results[0].T), eq(nv, before))))
+							if _, isPtr := elem.Underlying().(*types.Pointer); isPtr {
+								g.guard(implies(and(not(eq(errv, "0")), eq("(dyntype "+errv+")", g.typeID(elem))), and(results[0].T, eq(nv, errv))))
+							}
 							g.guard(implies(results[0].T, not(eq(nv, "0"))))
 							g.guard(implies(and(results[0].T, not(eq(nv, "0"))), "(<= (atime "+nv+") "+g.heap("alloc")+")"))
 						}
